@@ -76,7 +76,7 @@ var c08 = Register("C08", "C08.quantise", func(a c08Args) *Violation {
 	n := a.V.Num()
 	dp := a.DP
 	if n.Class != ref.Finite {
-		for _, m := range ref.Modes {
+		for _, m := range loopModes() {
 			if got := d.Round(dp, m); got != d {
 				return violf("Round(%s, %d, %v) changed a special value to %s", n, dp, m, DOf(got))
 			}
@@ -113,7 +113,7 @@ var c08 = Register("C08", "C08.quantise", func(a c08Args) *Violation {
 	}
 	dropped := false
 	klass := ""
-	for _, m := range ref.Modes {
+	for _, m := range loopModes() {
 		got := d.Round(dp, m)
 		var want ref.Num
 		unch := true
